@@ -7,7 +7,7 @@ PROPERTY = "C18"
 RULE = (
     "BFS to fixpoint (depth 3) and, for 3 estimators, the FULL tree of 4-call histories over a reduced alphabet, over histories of fit(D)/transform(D)/fit_transform(D) (3-4 data sets each, one collection holding the same array object several times) on REAL "
     "estimators: PersistenceImager() / (pixel_size=0.5) / user kernel; PersistenceLandscaper(num_steps=5) "
-    "with none / start / stop / both fixed by the user, and (flatten=True, hom_deg=1); landscaper histories also contain the user fixing / releasing a grid bound after construction (attribute assignment, set_params). Every transition "
+    "with none / start / stop / both fixed by the user, and (flatten=True, hom_deg=1); histories also contain a second live estimator of the same class being constructed and fitted in between; landscaper histories also contain the user fixing / releasing a grid bound after construction (attribute assignment, set_params). Every transition "
     "is compared with a fresh estimator replaying the same history: transform repeatable and state-"
     "preserving; fit_transform == fit;transform (output and post-state); imager maps collections element "
     "by element; after any history ending in fit(D) the learned attributes equal those of fit(D) on a "
@@ -114,11 +114,34 @@ def ops_for(init):
     if init["cls"] == "imager":
         # the same protocol in pre-converted birth-persistence form (skew=False)
         ops += [[op, "I2", "noskew"] for op in ("fit", "transform", "fit_transform")]
+    ops += [["other", "plain"], ["other", "fixed"]]
+    if init["cls"] == "imager":
+        pass
     else:
         # the user fixes (or releases, None) a grid bound AFTER construction, by attribute assignment or
         # through scikit-learn's set_params: from then on it is a parameter "the user fixed explicitly"
         ops += [["set", "start", -1.0], ["set", "stop", 20.0], ["set_params", "start", -2.5], ["set", "stop", None]]
     return ops
+
+
+_BYSTANDERS = []          # second estimators kept alive while the explored one is used
+
+
+def bystander(ctx, init, op):
+    """A SECOND estimator of the same class is constructed (with other user-fixed parameters), fitted and kept
+    alive: it must not influence the estimator under exploration (state shared at class / module level)."""
+    kw = dict(init["kw"])
+    if init["cls"] == "landscaper":
+        kw.update({"start": -7.0} if op[1] == "fixed" else {})
+    else:
+        kw.update({"pixel_size": 0.25} if op[1] == "fixed" else {})
+    other = make({"cls": init["cls"], "kw": kw})
+    keys = [k for k in (IMG_DATA if init["cls"] == "imager" else LS_DATA) if k not in THOROUGH_ONLY]
+    other.fit(data_for(init, keys[-1] if init["cls"] == "landscaper" else keys[1]))
+    if init["cls"] == "landscaper":
+        other.stop = 33.0
+    del _BYSTANDERS[:-3]
+    _BYSTANDERS.append(other)
 
 
 def user_kw(init, ops):
@@ -195,6 +218,9 @@ def out_digest(o):
 
 
 def do(ctx, est, init, op, count=True):
+    if op[0] == "other":
+        bystander(ctx, init, op)
+        return None
     if op[0] == "set":
         setattr(est, op[1], op[2])
         return None
@@ -246,6 +272,11 @@ def run_history(case, ctx):
             for k in ("start", "stop"):
                 if ukw.get(k) is not None and post[k] != float(ukw[k]):
                     bad("user-param-overwritten", "%s changed the user-fixed %s" % (op[0], k), post[k], ukw[k])
+        if op[0] == "other":
+            ctx.valid()
+            if not close_state(pre, post) or pre != post:
+                bad("other-object-interferes", "constructing / fitting ANOTHER estimator changed this estimator's state", post, pre)
+            continue
         if op[0] in ("set", "set_params"):
             continue
         if op[0] == "transform":
@@ -303,7 +334,10 @@ def run_history(case, ctx):
     # which grid bounds the USER has fixed so far is part of the state (a bound learned by fit and a bound of the
     # same value assigned by the user look alike in the public attributes but must behave differently at the next fit)
     fixed = sorted(k for k in ("start", "stop") if user_kw(init, ops).get(k) is not None) if init["cls"] == "landscaper" else []
-    return (init["cls"], repr(sorted(init["kw"].items(), key=str)), repr(sorted(st.items())), repr(fixed))
+    # a history in which ANOTHER estimator was created is explored further on its own (it reaches the same
+    # public state by construction; whether the futures agree is exactly what is to be found out)
+    n_other = min(2, sum(1 for o in ops if o[0] == "other"))
+    return (init["cls"], repr(sorted(init["kw"].items(), key=str)), repr(sorted(st.items())), repr(fixed), n_other)
 
 
 def run_case(case, ctx):
